@@ -130,7 +130,11 @@ func (q *Queue) Add(elem *queue.Elem) (err error) {
 			return
 		}
 		for e := q.current; e != nil; e = e.Next() {
-			pub := e.Value.(*queue.Elem).MessageWithID.(*queue.Publish)
+			// inflight messages (publish or pubrel) that have not been re-read yet are not candidates.
+			pub, ok := e.Value.(*queue.Elem).MessageWithID.(*queue.Publish)
+			if !ok {
+				continue
+			}
 			// drop expired non-inflight message
 			if pub.ID() == 0 &&
 				queue.ElemExpiry(now, e.Value.(*queue.Elem)) {
